@@ -160,8 +160,15 @@ func trSkeleton(pkg *packages.Package, fn string) (string, error) {
 		if i > 0 {
 			sb.WriteString(";\n   ")
 		}
-		fmt.Fprintf(&sb, "%q", l)
+		sb.WriteString(coqQuote(l))
 	}
 	sb.WriteString("].\n\n")
 	return sb.String(), nil
+}
+
+// coqQuote renders s as a Coq string literal (a double quote is written twice; there are no backslash escapes)
+func coqQuote(s string) string {
+	s = strings.ReplaceAll(s, "\n", " ")
+	s = strings.ReplaceAll(s, "\t", " ")
+	return "\"" + strings.ReplaceAll(s, "\"", "\"\"") + "\""
 }
